@@ -80,6 +80,9 @@ func (libSim) Gen(prop, tier string, r *rand.Rand) interface{} {
 	if (prop == "C01" || prop == "C06") && r.IntN(60) == 0 {
 		class = "big"
 	}
+	if prop != "C05" && r.IntN(40) == 0 {
+		class = "epoch" // the coarsest retention reaches back beyond the epoch
+	}
 	l := genLayout(r, class)
 	c := &LibCase{Layout: l, Clock0: genClock0(r, l), Windows: 4, WSeed: r.Uint64()}
 	if prop == "C06" && chance(r, 0.06) {
@@ -523,6 +526,12 @@ func (lr *libRun) step(i int, op LibOp) bool {
 	for _, p := range pts {
 		if p.T < 0 || p.T >= math.MaxUint32 {
 			e.Skip("timestamp-out-of-domain")
+			return false
+		}
+		if p.T < lr.c.Layout.MaxStep() && lr.c.Layout.MaxRet() >= now {
+			// in range only because the retention reaches beyond the epoch, and
+			// aligned to interval 0, which the format reads as "empty slot"
+			e.Skip("interval-zero-is-the-empty-marker")
 			return false
 		}
 	}
